@@ -47,8 +47,9 @@ def _run_unit(arg):
     modname, idx = arg
     t0 = time.time()
     try:
-        from . import execu, omap, stdmodels, simobj, msd  # noqa: F401  (register theories)
+        from . import execu, omap, stdmodels, simobj, msd, fsys  # noqa: F401  (register theories)
         msd.install()
+        fsys.install()
         mod = importlib.import_module(modname)
         unit = mod.UNITS[idx]
         res = execu.explore(unit, max_paths=getattr(unit, "max_paths", 4000))
